@@ -323,7 +323,8 @@ func slashDependent(q frontReq, body string) bool {
 
 func runFront(q frontReq, body string) string {
 	return guard(func() string {
-		req := httptest.NewRequest("GET", "http://example.com"+frontPath(q), strings.NewReader(body))
+		req := httptest.NewRequest("GET", "http://example.com/", strings.NewReader(body))
+		req.URL.Path = frontPath(q) // (as a server sees it: the path decoded; prefixes may hold characters URLs escape)
 		req.Method = q.method
 		if q.unknownLen {
 			req.ContentLength = -1
@@ -435,7 +436,7 @@ func famSrvFront(o *Out, r *RNG, thorough bool) {
 		// the same table wherever the handler is mounted: prefixes of one to four segments in both spellings, the mount
 		// root with and without its trailing slash
 		if srv != "prin" {
-			for _, px := range []string{"/p", "/p/q", "/a/b/c", "/a/b/c/d"} {
+			for _, px := range []string{"/p", "/p/q", "/a/b/c", "/a/b/c/d", "/my dav", "/kalender/j\u00f6rg", "/a+b/100%"} {
 				for _, slash := range []bool{false, true} {
 					for _, m := range frontMethods {
 						for lvl := 0; lvl <= 5; lvl++ {
